@@ -174,6 +174,7 @@ class C13(Prop):
         "AwProofs.C13.json_roundtrip",
         "AwProofs.C13.copy_roundtrip",
         "AwProofs.C13.json_shape",
+        "AwProofs.C13.built_event_roundtrips",
     ]
     TRUSTED = [
         "iso8601.parse_date, datetime.isoformat, json.dumps/loads (float repr round trip) and the jsonschema "
